@@ -339,3 +339,180 @@ Proof.
     unfold norm2 in *. field_simplify_eq; [|lra]. nra.
   - intros a b. destruct (Rlt_dec (norm2 a) (norm2 b)); lra.
 Qed.
+
+(* ---------- the sign convention over C, list level: after the flip every deciding vector has an entry that is REAL POSITIVE and of largest
+   magnitude in the vector.  sign_exact: z * conj(np.sign z) = |z| (the defining property of np.sign on complex numbers) ---------- *)
+Definition sign_exact (ph : CR -> CR) : Prop := forall z, 0 < norm2 z -> cmulR z (conjR (ph z)) = (sqrt (norm2 z), 0).
+
+Lemma cpick_in (lt : CR -> CR -> bool) : forall l best, cpick lt l best = best \/ In (cpick lt l best) l.
+Proof.
+  induction l as [|x l IH]; intros best; cbn [cpick]; [now left|].
+  destruct (lt best x).
+  - destruct (IH x) as [E|I]; [right; left; now rewrite E | right; right; exact I].
+  - destruct (IH best) as [E|I]; [now left | right; right; exact I].
+Qed.
+Lemma cdeciding_in (lt : CR -> CR -> bool) : forall l, l <> [] -> In (cdeciding c0R lt l) l.
+Proof. intros [|x l] H; [congruence|]. cbn [cdeciding]. destruct (cpick_in lt l x) as [E|I]; [left; now rewrite E | right; exact I]. Qed.
+Lemma norm2_mul_unit z g : unit_mod g -> norm2 (cmulR z (conjR g)) = norm2 z.
+Proof. unfold unit_mod, norm2, cmulR, conjR. cbn [fst snd]. intros H. nra. Qed.
+
+Section SignConvention.
+Variables (ph : CR -> CR) (lt : CR -> CR -> bool).
+Hypothesis PH : sign_like ph.
+Hypothesis PE : sign_exact ph.
+Hypothesis LT : abs_lt lt.
+
+(* a vector with a non-zero entry: its deciding entry z is one of its entries, non-zero, of largest magnitude; multiplying the vector by
+   conj(ph z) makes that entry |z| and keeps all magnitudes *)
+Lemma deciding_vector (l : list CR) :
+  (exists x, In x l /\ 0 < norm2 x) ->
+  let z := cdeciding c0R lt l in
+  In z l /\ 0 < norm2 z /\ (forall y, In y l -> norm2 y <= norm2 z) /\
+  cmulR z (conjR (ph z)) = (sqrt (norm2 z), 0) /\
+  (forall y, In y l -> norm2 (cmulR y (conjR (ph z))) <= (sqrt (norm2 z))^2).
+Proof.
+  intros (x & Hx & Px) z.
+  assert (NE : l <> []) by (intros ->; destruct Hx).
+  assert (MX : forall y, In y l -> norm2 y <= norm2 z) by (intros y Hy; now apply cdeciding_max).
+  assert (PZ : 0 < norm2 z) by (pose proof (MX x Hx); lra).
+  split; [now apply cdeciding_in | split; [exact PZ | split; [exact MX | split; [now apply PE|]]]].
+  intros y Hy. rewrite norm2_mul_unit by (now apply PH).
+  replace ((sqrt (norm2 z))^2) with (sqrt (norm2 z) * sqrt (norm2 z)) by ring. rewrite sqrt_sqrt by lra. now apply MX.
+Qed.
+
+Theorem complex_flip_u_sign d1 c r d2 (U V : list (list CR)) :
+  rect d1 c U -> rect r d2 V -> (1 <= d1)%nat -> herm_cols d1 c (cre U) (cim U) ->
+  let '(U2, _) := flipR ph lt U V true in
+  forall t, (t < c)%nat -> exists i, (i < d1)%nat /\ cim U2 i t = 0 /\ 0 < cre U2 i t /\
+    forall i', (i' < d1)%nat -> (cre U2 i' t)^2 + (cim U2 i' t)^2 <= (cre U2 i t)^2.
+Proof.
+  intros RU RV D1 O.
+  pose proof (complex_flip_u_entries ph lt d1 c r d2 U V RU RV D1) as E. cbv zeta in E.
+  destruct (flipR ph lt U V true) as [U2 V2]. destruct E as [EU _]. intros t Ht.
+  set (col := ccol c0R t U).
+  assert (ENT : forall i, (i < d1)%nat -> In (nth t (nth i U []) c0R) col).
+  { intros i Hi. unfold col, ccol. change (nth t (nth i U []) c0R) with ((fun r0 : list CR => nth t r0 c0R) (nth i U [])).
+    apply in_map. apply nth_In. destruct RU; lia. }
+  assert (G : phase_at (csigns_u c0R ph lt U) t = ph (cdeciding c0R lt col)).
+  { unfold phase_at, csigns_u. rewrite map_length, seq_length, (ncols_U d1 c U RU D1).
+    destruct (Nat.ltb_spec t c) as [_|]; [|lia].
+    rewrite (nth_indep _ c0R (ph (cdeciding c0R lt (ccol c0R 0 U)))) by (now rewrite map_length, seq_length).
+    now rewrite (map_nth (fun j => ph (cdeciding c0R lt (ccol c0R j U)))), seq_nth by exact Ht. }
+  destruct (deciding_vector col) as (IN & PZ & MX & EX & MG).
+  { destruct (O t t Ht Ht) as [H1 _]. rewrite Nat.eqb_refl in H1.
+    destruct (rsum_pos_witness d1 (fun i => cre U i t * cre U i t + cim U i t * cim U i t)) as (i & Hi & Pi).
+    - intros i _. nra.
+    - rewrite H1. lra.
+    - exists (nth t (nth i U []) c0R). split; [now apply ENT|]. unfold norm2, cre, cim, c0R in *. nra. }
+  set (z := cdeciding c0R lt col) in *.
+  assert (PAIR : forall i, (i < d1)%nat -> (cre U2 i t, cim U2 i t) = cmulR (nth t (nth i U []) c0R) (conjR (ph z))).
+  { intros i Hi. destruct (EU i t Hi Ht) as [-> ->]. unfold Ur', Ui'. rewrite G. unfold cmulR, conjR, cre, cim, c0R. cbn [fst snd]. f_equal; ring. }
+  (* the index of the deciding entry *)
+  unfold col, ccol in IN. apply in_map_iff in IN. destruct IN as (row & Erow & Irow).
+  destruct (In_nth U row [] Irow) as (i & Hi & Ei). assert (Hi' : (i < d1)%nat) by (destruct RU; lia).
+  exists i. split; [exact Hi'|].
+  pose proof (PAIR i Hi') as Pi. rewrite Ei, Erow, EX in Pi. injection Pi as P1 P2.
+  split; [exact P2 | split; [rewrite P1; now apply sqrt_lt_R0|]].
+  intros i' Hi2. pose proof (PAIR i' Hi2) as P'. pose proof (MG _ (ENT i' Hi2)) as B.
+  rewrite <- P' in B. unfold norm2 in B at 1. cbn [fst snd] in B. rewrite P1. exact B.
+Qed.
+
+Theorem complex_flip_v_sign d1 c r d2 (U V : list (list CR)) :
+  rect d1 c U -> rect r d2 V -> (1 <= d1)%nat -> (1 <= d2)%nat -> herm_rows r d2 (cre V) (cim V) ->
+  let '(_, V2) := flipR ph lt U V false in
+  forall t, (t < r)%nat -> exists j, (j < d2)%nat /\ cim V2 t j = 0 /\ 0 < cre V2 t j /\
+    forall j', (j' < d2)%nat -> (cre V2 t j')^2 + (cim V2 t j')^2 <= (cre V2 t j)^2.
+Proof.
+  intros RU RV D1 D2 O.
+  pose proof (complex_flip_v_entries ph lt d1 c r d2 U V RU RV D1) as E. cbv zeta in E.
+  destruct (flipR ph lt U V false) as [U2 V2]. destruct E as [_ EV]. intros t Ht.
+  set (row := nth t V []).
+  assert (LR : length row = d2) by (apply (rect_row_len r d2 V t RV Ht)).
+  assert (ENT : forall j, (j < d2)%nat -> In (nth j row c0R) row) by (intros j Hj; apply nth_In; lia).
+  assert (G : phase_at (csigns_v c0R ph lt V) t = ph (cdeciding c0R lt row)).
+  { unfold phase_at, csigns_v. rewrite map_length. destruct RV as [LV _]. rewrite LV.
+    destruct (Nat.ltb_spec t r) as [_|]; [|lia].
+    rewrite (nth_indep _ c0R (ph (cdeciding c0R lt []))) by (rewrite map_length; lia).
+    now rewrite (map_nth (fun rw => ph (cdeciding c0R lt rw))). }
+  destruct (deciding_vector row) as (IN & PZ & MX & EX & MG).
+  { destruct (O t t Ht Ht) as [H1 _]. rewrite Nat.eqb_refl in H1.
+    destruct (rsum_pos_witness d2 (fun j => cre V t j * cre V t j + cim V t j * cim V t j)) as (j & Hj & Pj).
+    - intros j _. nra.
+    - rewrite H1. lra.
+    - exists (nth j row c0R). split; [now apply ENT|]. unfold norm2, cre, cim, c0R, row in *. nra. }
+  set (z := cdeciding c0R lt row) in *.
+  assert (PAIR : forall j, (j < d2)%nat -> (cre V2 t j, cim V2 t j) = cmulR (nth j row c0R) (conjR (ph z))).
+  { intros j Hj. destruct (EV t j Ht Hj) as [-> ->]. unfold Vr', Vi'. rewrite G. unfold cmulR, conjR, cre, cim, c0R, row. cbn [fst snd]. f_equal; ring. }
+  destruct (In_nth row z c0R IN) as (j & Hj & Ej). assert (Hj' : (j < d2)%nat) by lia.
+  exists j. split; [exact Hj'|].
+  pose proof (PAIR j Hj') as Pj. rewrite Ej, EX in Pj. injection Pj as P1 P2.
+  split; [exact P2 | split; [rewrite P1; now apply sqrt_lt_R0|]].
+  intros j' Hj2. pose proof (PAIR j' Hj2) as P'. pose proof (MG _ (ENT j' Hj2)) as B.
+  rewrite <- P' in B. unfold norm2 in B at 1. cbn [fst snd] in B. rewrite P1. exact B.
+Qed.
+End SignConvention.
+
+Lemma sign_exact_witness : sign_exact (fun z => (fst z / sqrt (norm2 z), snd z / sqrt (norm2 z))).
+Proof.
+  intros z Hz. unfold cmulR, conjR. cbn [fst snd].
+  assert (S2 : sqrt (norm2 z) * sqrt (norm2 z) = norm2 z) by (apply sqrt_sqrt; lra).
+  assert (SP : 0 < sqrt (norm2 z)) by (now apply sqrt_lt_R0).
+  f_equal.
+  - unfold norm2 in *. field_simplify_eq; [|lra]. nra.
+  - field. lra.
+Qed.
+
+(* ---------- END TO END over C for EVERY n_eigenvecs (None, 0, > min(shape), > max(shape)), d1 >= 1 ---------- *)
+Lemma csvd_contract_shape d1 d2 Mr Mi f t : csvd_contract d1 d2 Mr Mi f t -> shape_contract d1 d2 f t.
+Proof. destruct t as [[U S] V]. intros H. exact (proj1 H). Qed.
+
+Theorem complex_interface_truncated_e2e_gen (ph : CR -> CR) (lt : CR -> CR -> bool) (oracle : bool -> triple CR)
+    (funs : fname -> nat -> list (list CR) -> triple CR) d1 d2 (Ml : list (list CR)) n (flip ub : bool) U S V :
+  sign_like ph -> abs_lt lt ->
+  (forall f, csvd_contract d1 d2 (cre Ml) (cim Ml) f (oracle f)) ->
+  funs FTruncated 0%nat Ml = truncated_svd oracle d1 d2 n -> (1 <= d1)%nat ->
+  svd_interface_flip (flipR ph lt) funs MTruncated Ml flip ub = Ok (U, S, V) ->
+  let k := n_kept d1 d2 n in
+  let mn := Nat.min d1 d2 in
+  let So := snd (fst (oracle (full_flag d1 d2 n))) in
+  let p := Nat.min k mn in
+  let Er := fun i j => cre Ml i j - cprod_re p (cre U) (cim U) (cre V) (cim V) (sre S) i j in
+  let Ei := fun i j => cim Ml i j - cprod_im p (cre U) (cim U) (cre V) (cim V) (sre S) i j in
+  S = firstn k So /\ length S = p /\
+  herm_cols d1 (Nat.min k d1) (cre U) (cim U) /\ herm_rows (Nat.min k d2) d2 (cre V) (cim V) /\
+  cfrob2 d1 d2 Er Ei = rsum (mn - p) (fun t => (sre So (p + t)%nat)^2) /\
+  (forall Br Bi, crank_le d1 d2 k Br Bi ->
+     cfrob2 d1 d2 Er Ei <= cfrob2 d1 d2 (fun i j => cre Ml i j - Br i j) (fun i j => cim Ml i j - Bi i j)).
+Proof.
+  intros PH LT HC HF D1 E. cbv zeta.
+  unfold svd_interface_flip in E. cbn [dispatch] in E. rewrite HF in E.
+  pose proof (complex_truncated_best_gen oracle d1 d2 (cre Ml) (cim Ml) n HC) as T. cbv zeta in T.
+  pose proof (truncated_shapes CR oracle d1 d2 n (fun f => csvd_contract_shape _ _ _ _ _ _ (HC f))) as SH. cbv zeta in SH.
+  set (k := n_kept d1 d2 n) in *. set (mn := Nat.min d1 d2) in *.
+  assert (CU : Nat.min k (if full_flag d1 d2 n then d1 else mn) = Nat.min k d1).
+  { unfold full_flag. fold k mn. destruct (Nat.ltb_spec mn k); unfold mn in *; lia. }
+  assert (RVn : Nat.min k (if full_flag d1 d2 n then d2 else mn) = Nat.min k d2).
+  { unfold full_flag. fold k mn. destruct (Nat.ltb_spec mn k); unfold mn in *; lia. }
+  rewrite CU, RVn in T.
+  destruct (truncated_svd oracle d1 d2 n) as [[U0 S0] V0].
+  destruct SH as (RU & _ & RV).
+  destruct T as (ES & LS & OU & OV & EF & BEST).
+  destruct flip.
+  - pose proof (complex_flip_model ph lt d1 (Nat.min k d1) (Nat.min k d2) d2 U0 V0 RU RV D1 ub) as FM. cbv zeta in FM.
+    assert (HP : forall t, (t < length (if ub then csigns_u c0R ph lt U0 else csigns_v c0R ph lt V0))%nat ->
+                 unit_mod (nth t (if ub then csigns_u c0R ph lt U0 else csigns_v c0R ph lt V0) c0R)).
+    { destruct ub; [apply (signs_u_unit ph lt PH LT d1 (Nat.min k d1) U0 RU D1 OU) | apply (signs_v_unit ph lt PH LT (Nat.min k d2) d2 V0 RV OV)]. }
+    specialize (FM HP).
+    destruct (flipR ph lt U0 V0 ub) as [U2 V2]. inversion E; subst U S V. clear E.
+    destruct FM as (FU & FV & FP).
+    assert (EQ : cfrob2 d1 d2 (fun i j => cre Ml i j - cprod_re (Nat.min k mn) (cre U2) (cim U2) (cre V2) (cim V2) (sre S0) i j)
+                            (fun i j => cim Ml i j - cprod_im (Nat.min k mn) (cre U2) (cim U2) (cre V2) (cim V2) (sre S0) i j)
+                 = cfrob2 d1 d2 (fun i j => cre Ml i j - cprod_re (Nat.min k mn) (cre U0) (cim U0) (cre V0) (cim V0) (sre S0) i j)
+                            (fun i j => cim Ml i j - cprod_im (Nat.min k mn) (cre U0) (cim U0) (cre V0) (cim V0) (sre S0) i j)).
+    { unfold cfrob2. apply rsum_ext; intros i Hi. apply rsum_ext; intros j Hj.
+      destruct (FP (Nat.min k mn) (sre S0) i j ltac:(unfold mn; lia) Hi Hj) as [-> ->]. reflexivity. }
+    split; [exact ES | split; [exact LS | split; [now apply FU | split; [now apply FV|]]]].
+    rewrite EQ. split; [exact EF | exact BEST].
+  - inversion E; subst U S V. clear E.
+    split; [exact ES | split; [exact LS | split; [exact OU | split; [exact OV | split; [exact EF | exact BEST]]]]].
+Qed.
